@@ -313,10 +313,7 @@ fn empty_registry(path: &Path) -> NodeRegistry {
 
 impl Env {
     fn new(glue: Glue, faults: Vec<Fault>) -> Env {
-        let tmp = tempfile::Builder::new()
-            .prefix("vh-c19-")
-            .tempdir()
-            .unwrap_or_else(|e| fatal(format!("tempdir: {e}")));
+        let tmp = fakeos::scratch_dir("vh-c19-").unwrap_or_else(|e| fatal(format!("tempdir: {e}")));
         let src_bin = tmp.path().join("src").join("antnode");
         let new_bin = tmp.path().join("src").join("antnode-new");
         std::fs::create_dir_all(tmp.path().join("src")).unwrap_or_else(|e| fatal(format!("{e}")));
